@@ -69,6 +69,47 @@ type caseRec struct {
 	Info map[string]any `json:"info"`
 }
 
+// resubRec: an accepted leaf submitted again through another chain -- the
+// certificate of the CA directly under its root issued (cross-signed) by the
+// root of another hierarchy (record Resub of SubmissionTrace.tla).
+type resubRec struct {
+	Ev    string         `json:"ev"`
+	I     int            `json:"i"`
+	Gen   int            `json:"gen"`
+	C     absCase        `json:"c"`
+	Root2 string         `json:"root2"`
+	A     resubAnswer    `json:"a"`
+	Info  map[string]any `json:"info"`
+}
+
+type resubAnswer struct {
+	Status      int   `json:"status"`
+	SCT         bool  `json:"sct"`
+	SCTOk       bool  `json:"sctOk"`
+	SameSCT     bool  `json:"sameSct"`
+	Retrievable []int `json:"retrievable"`
+}
+
+// altChain returns the chain of m's leaf that goes through the cross-signed
+// certificate of the CA directly under the root (leaf to root2, full), or nil
+// if the leaf was issued directly by the root.
+func altChain(m *minted, root2 *certs.Authority) [][]byte {
+	path := m.leaf.Issuer.Path() // issuer ... root
+	if len(path) < 2 {
+		return nil
+	}
+	top := path[len(path)-2]
+	if top.PreIssuer {
+		return nil
+	}
+	x := top.CrossSignedBy(root2)
+	out := [][]byte{m.leaf.DER}
+	for _, a := range path[:len(path)-2] {
+		out = append(out, a.DER)
+	}
+	return append(out, x.DER, root2.DER)
+}
+
 // schedule is Schedule of Submission.tla (the trace specification checks that
 // the Reload records follow it).
 var schedule = [][]string{{"A"}, {"B"}, {"A", "B"}}
@@ -81,6 +122,7 @@ type minted struct {
 	body    []byte
 	leafDER []byte
 	full    [][]byte // intended chain, leaf to root, in the right order
+	leaf    *certs.Leaf
 	info    map[string]any
 	// response
 	status int
@@ -199,6 +241,7 @@ func (m *maker) mint(p planRec) *minted {
 	}
 	leaf := cur.Issue(lo)
 	out.leafDER = leaf.DER
+	out.leaf = leaf
 	out.full = leaf.FullChain()
 	chain := leaf.Chain(c.RootSent)
 	if len(chain) != c.Length {
@@ -357,6 +400,7 @@ func TestSubmission(t *testing.T) {
 	}
 
 	var all []*minted
+	var resubs []resubRec
 	var seqErr atomic.Value
 	for _, g := range gens {
 		// ---- the root set of the generation
@@ -488,6 +532,84 @@ func TestSubmission(t *testing.T) {
 		if err := w.log.VerifSequence(ctx); err != nil {
 			fail("final sequencing: %v", err)
 		}
+
+		// ---- accepted leaves once more, through another chain: alternately one
+		// that ends in the other accepted root and one that ends in the root no
+		// generation accepts
+		if g == 3 {
+			k := 0
+			for _, m := range cases {
+				if m.status != 200 || m.p.C.Body != "ok" || m.p.C.Order != "ok" || (m.p.C.Root != "A" && m.p.C.Root != "B") {
+					continue
+				}
+				root2 := map[string]string{"A": "B", "B": "A"}[m.p.C.Root]
+				if k%3 == 2 {
+					root2 = "N"
+				}
+				full2 := altChain(m, roots[root2])
+				if full2 == nil {
+					continue
+				}
+				k++
+				e1, err1 := certs.DeriveEntry(m.full)
+				e2, err2 := certs.DeriveEntry(full2)
+				if err1 != nil || err2 != nil || !bytes.Equal(e1.Logged, e2.Logged) || e1.IssuerKeyHash != e2.IssuerKeyHash {
+					fail("alternative chain of case %d is not the same entry (%v, %v)", m.p.I, err1, err2)
+				}
+				chain2 := full2
+				if !m.p.C.RootSent {
+					chain2 = full2[:len(full2)-1]
+				}
+				req := httptest.NewRequest("POST", "/ct/v1/"+m.p.C.Ep, bytes.NewReader(jsonBody(chain2)))
+				req.Header.Set("Content-Type", "application/json")
+				rr := httptest.NewRecorder()
+				done := make(chan struct{})
+				go func() {
+					defer close(done)
+					defer func() {
+						if r := recover(); r != nil {
+							rr.Code = -1
+						}
+					}()
+					handler.ServeHTTP(rr, req)
+				}()
+				// a sequencer for the case in which the log treats it as a new entry
+				for waiting := true; waiting; {
+					select {
+					case <-done:
+						waiting = false
+					default:
+						if err := w.log.VerifSequence(ctx); err != nil {
+							fail("sequencer: %v", err)
+						}
+						time.Sleep(2 * time.Millisecond)
+					}
+				}
+				a := resubAnswer{Status: rr.Code, Retrievable: []int{}}
+				info := map[string]any{"response": string(bytes.TrimSpace(rr.Body.Bytes()[:min(rr.Body.Len(), 300)])), "chain": len(chain2)}
+				if rr.Code == 200 {
+					var r addChainResponse
+					if err := json.Unmarshal(rr.Body.Bytes(), &r); err == nil && r.SCTVersion != nil && *r.SCTVersion == 0 &&
+						r.Timestamp != nil && len(r.ID) == 32 && len(r.Signature) > 0 {
+						a.SCT = true
+						ext, eerr := base64.StdEncoding.DecodeString(r.Extensions)
+						verr := certs.VerifyDigitallySigned(w.key.Public(), e2.SCTInput(*r.Timestamp, ext), r.Signature)
+						a.SCTOk = eerr == nil && bytes.Equal(r.ID, logID[:]) && verr == nil
+					}
+					a.SameSCT = bytes.Equal(bytes.TrimSpace(rr.Body.Bytes()), bytes.TrimSpace(m.resp))
+					for p := 1; p < len(full2); p++ {
+						fp := sha256.Sum256(full2[p])
+						if b, err := w.backend.Fetch(ctx, "issuer/"+hex.EncodeToString(fp[:])); err == nil && bytes.Equal(b, full2[p]) {
+							a.Retrievable = append(a.Retrievable, p)
+						}
+					}
+				}
+				resubs = append(resubs, resubRec{Ev: "Resub", I: m.p.I, Gen: g, C: m.p.C, Root2: root2, A: a, Info: info})
+			}
+			if err := w.log.VerifSequence(ctx); err != nil {
+				fail("final sequencing: %v", err)
+			}
+		}
 	}
 
 	// ---- read the log back
@@ -533,7 +655,22 @@ func TestSubmission(t *testing.T) {
 			outRecs = append(outRecs, genHdr[emitted]...)
 		}
 	}
+	resubsOut := false
+	emitResubs := func() {
+		if !resubsOut {
+			resubsOut = true
+			if len(resubs) > 0 {
+				emitHdrs(3)
+			}
+			for _, r := range resubs {
+				outRecs = append(outRecs, r)
+			}
+		}
+	}
 	for _, m := range all {
+		if m.p.Gen > 3 {
+			emitResubs()
+		}
 		emitHdrs(m.p.Gen)
 		a := answer{Status: m.status, EntryType: "none", Logged: "none", IkhPos: -1, Issuers: []int{}, Retrievable: []int{}, Precert: "absent"}
 		m.info["response"] = string(bytes.TrimSpace(m.resp[:min(len(m.resp), 300)]))
@@ -628,6 +765,7 @@ func TestSubmission(t *testing.T) {
 		}
 		outRecs = append(outRecs, caseRec{Ev: "Case", I: m.p.I, Gen: m.p.Gen, C: m.p.C, A: a, Info: m.info})
 	}
+	emitResubs()
 	emitHdrs(maxGen)
 	unattributed := 0
 	for i := range leaves {
